@@ -234,14 +234,15 @@ def _gen_stream(rng):
         k = rng.random()
         if k < 0.06:
             v = "%s, %s" % (v, v)
-        elif k < 0.10:
-            v = "%s,%s" % (v, rng.choice([v, str(n + 1), "", v + " "]))
-        elif k < 0.13:
+        elif k < 0.15:
+            v = "%s,%s" % (v, rng.choice([v, str(n + 1), "", v + " ", "0" + v, " 0" + v, "00" + v, "%s,%s" % (v, v), "%s, %d" % (v, n + 1),
+                                          "%s,0%s" % (v, v), "+" + v]))
+        elif k < 0.18:
             # Python's \s beyond SP / HTAB that survives HTTPHeaders.parse: NEL, NBSP (known finding cl-list-space)
             v = "%s,%s%s" % (v, rng.choice(["\xa0", "\x85", " \xa0", "\xa0 ", "\t\x85", "\xa0\x85"]), v)
             if rng.random() < 0.3:
                 v = "%s,%s" % (v, rng.choice([v.split(",")[0], " " + v.split(",")[0], "\xa0"]))
-        elif k < 0.16:
+        elif k < 0.21:
             v = "0" * rng.randint(1, 3) + v
         hdrs.append("Content-Length: " + v)
         if rng.random() < 0.06:
